@@ -356,7 +356,12 @@ def _param_comprehension(I, st, env, e, g, it, frame):
     from .values import Opt
     elems = []
     cur_state = st
-    for L in _module_letters(I, frame.mod) + ['?', '']:
+    letters = []
+    for L in _module_letters(I, frame.mod) + ['?']:
+        letters.append(L)
+        if L in getattr(I, 'param_dups', ()):
+            letters.append(L + '#2')
+    for L in letters + ['']:
         key, val = param_value(I, it.src, L)
         if L == '' and key not in cur_state.dom:
             cur_state.dom[key] = PSTRARG
@@ -364,25 +369,45 @@ def _param_comprehension(I, st, env, e, g, it, frame):
         present = status & frozenset(['F', 'V'])
         if not present:
             continue
-        e2 = dict(env)
-        res = I.assign(cur_state.clone(), e2, g.target, TupleV([Str(L), val]), frame)
-        if len(res) != 1 or res[0][2] is not None:
-            raise Unsupported('comprehension over command words: complex target in %s' % frame.qual())
-        s2, e3, _oc = res[0]
-        keep = True
-        for c in g.ifs:
-            r = I.truth(s2, e3, c, frame)
-            if len(r) != 1 or isinstance(r[0][1], Raised):
-                raise Unsupported('comprehension over command words: undecided filter in %s' % frame.qual())
-            s2 = r[0][0]
-            keep = keep and r[0][1]
-        if not keep:
-            continue
-        r = I.eval(s2, e3, e.elt, frame)
-        if len(r) != 1 or isinstance(r[0][1], Raised) or len(r[0][0].trace) != len(cur_state.trace):
-            raise Unsupported('comprehension over command words: element expression forks or has effects in %s' % frame.qual())
-        v = r[0][1]
-        elems.append(v if 'A' not in status else Opt(key, present, v))
+        # the filter and the element may depend on whether the word carries a value: evaluate per status and group the
+        # statuses that give the same element
+        groups = []         # [(set of statuses, element value)]
+        for stt in sorted(present):
+            sc = cur_state.clone()
+            sc.dom[key] = frozenset([stt])
+            e2 = dict(env)
+            one = NONE if (stt == 'F' and L != '') else (val if L == '' else I.symbol('p:%s' % L, kind='param', letter=L.split('#')[0]))
+            res = I.assign(sc, e2, g.target, TupleV([Str(L.split('#')[0]), one]), frame)
+            if len(res) != 1 or res[0][2] is not None:
+                raise Unsupported('comprehension over command words: complex target in %s' % frame.qual())
+            s2, e3, _oc = res[0]
+            keep = True
+            for c in g.ifs:
+                r = I.truth(s2, e3, c, frame)
+                if len(r) != 1 or isinstance(r[0][1], Raised):
+                    raise Unsupported('comprehension over command words: undecided filter in %s' % frame.qual())
+                s2 = r[0][0]
+                keep = keep and r[0][1]
+            if not keep:
+                continue
+            r = I.eval(s2, e3, e.elt, frame)
+            if len(r) != 1 or isinstance(r[0][1], Raised) or len(r[0][0].trace) != len(cur_state.trace):
+                raise Unsupported('comprehension over command words: element expression forks or has effects in %s' % frame.qual())
+            v = r[0][1]
+            for grp in groups:
+                if vkey(grp[1]) == vkey(v):
+                    grp[0].add(stt)
+                    break
+            else:
+                groups.append((set([stt]), v))
+        if len(groups) == 2 and all(isinstance(gv, TupleV) and len(gv.elems) == 2 for _gs, gv in groups) and \
+                vkey(groups[0][1].elems[0]) == vkey(groups[1][1].elems[0]):
+            # (label, None) for the flag form and (label, number) for the valued form: one element with a lazily decided value
+            lazy = Choice([({key: frozenset(gs)}, gv.elems[1]) for gs, gv in groups])
+            groups = [(groups[0][0] | groups[1][0], TupleV([groups[0][1].elems[0], lazy]))]
+        for gs, v in groups:
+            allowed = frozenset(gs)
+            elems.append(v if (allowed >= status) else Opt(key, allowed, v))
     return [(st, IterV(elems, 'words')) if isinstance(e, ast.GeneratorExp) else _as_list(st, elems, frame)]
 
 
